@@ -14,6 +14,15 @@ MODEL_MAX_PIXELS = 8192          # textures above this go to the oracle-only str
 PAL_MODEL_MAX_PIXELS = 4096      # every palette image of the property's domain (1..64 x 1..64) is model-compared
 
 
+def f32(x):
+    return struct.unpack("<f", struct.pack("<f", x))[0]
+
+
+def f32_size(bpp, w, h):
+    """(bpp * w as f32 * h as f32) as usize, computed with IEEE binary32 roundings (independent of the Coq model round24)"""
+    return int(f32(f32(bpp * f32(float(w))) * f32(float(h))))
+
+
 def hx(b):
     return "B" + bytes(b).hex()
 
@@ -80,7 +89,8 @@ class C19(PropertyCheck):
     assumptions = [
         "A-float: f64 ceil/log2 in etc1::decode and the f32 size product in ctpk::read are exact on the domain (modelled by integer functions; "
         "confirmed by the correspondence over all 25 sizes, odd sizes, and the block consumption of d x 1 / 1 x d images for d = 1..40 (300 thorough) "
-        "and 2^k-1, 2^k, 2^k+1 up to 2049)",
+        "and 2^k-1, 2^k, 2^k+1 up to 2049; the f32 size product is modelled by round24 / payload_size_f32 and compared with ctpk::read at and beyond the "
+        "exactness boundary w*h = 2^24 (stream ctpk-f32-size, independent IEEE emulation in the oracle))",
         "A-alloc: allocations below 2^32 pixels succeed",
         "the 3DS formats are reached through a single-texture CTPK built by the harness, CI8 through a single-image TPL built by the harness",
     ]
@@ -248,6 +258,14 @@ class C19(PropertyCheck):
                 etc(False, w, h, rand_bytes(rng, n), "etc-tile-count", ctpk=False)
                 etc(False, w, h, rand_bytes(rng, n - 8), "etc-tile-count", ctpk=False)
 
+        # 3c. A-float, the binary32 size product of ctpk::read at and beyond the exactness boundary w*h = 2^24: L4 (format 10, reads
+        # nothing) with a zero payload of exactly the rounded size (ok) and one byte fewer (error); model = round24 / payload_size_f32
+        probes = [(4096, 4096), (4097, 4099)] if not thorough else [(4096, 4096), (4097, 4099), (4099, 4101), (5793, 5795), (8191, 2053), (4097, 4097)]
+        for (w, h) in probes:
+            S = f32_size(0.5, w, h)
+            for L in (S, S - 1):
+                cases.append(Case("c19 ctpkprobe 10 %d %d %d" % (w, h, L), "ctpk-f32-size"))
+
         # 4. RGB5A3: all 65536 values
         for chunk in range(16):
             vals = list(range(chunk * 4096, (chunk + 1) * 4096))
@@ -271,7 +289,7 @@ class C19(PropertyCheck):
         # the cropped-away padding bytes 0xFF / random / = palette size; and the converse: one visible index outside -> error (model-compared)
         psizes = [(1, 1), (3, 2), (7, 4), (8, 3), (9, 5), (12, 4), (13, 7), (8, 4), (16, 8), (17, 9), (31, 30), (33, 1), (63, 63), (64, 61)]
         if thorough:
-            psizes += [(rng.randrange(1, 65), rng.randrange(1, 65)) for _ in range(300)]
+            psizes += [(rng.randrange(1, 65), rng.randrange(1, 65)) for _ in range(60)]
         for (w, h) in psizes:
             n = texref.ci8_data_size(w, h)
             visible = set(texref.ci8_index(w, x, y) for y in range(h) for x in range(w))
@@ -351,6 +369,8 @@ class C19(PropertyCheck):
             payload = unhx(toks[5])
             if is_pow2_ge8(w) and is_pow2_ge8(h) and len(payload) == texref.payload_size(13 if alpha else 12, w, h):
                 return ("etc", alpha, w, h, payload)
+        elif k == "ctpkprobe":
+            return ("probe", int(toks[2]), int(toks[3]), int(toks[4]), int(toks[5]))
         elif k == "rgb5a3":
             data = unhx(toks[2])
             if len(data) % 2 == 0:
@@ -385,6 +405,10 @@ class C19(PropertyCheck):
         dom = self._domain(toks)
         if dom is None:
             return None
+        if dom[0] == "probe":
+            fmt, w, h, L = dom[1:]
+            want = ("ok %d" % (4 * w * h)) if L >= f32_size({10: 0.5, 11: 1.0}[fmt], w, h) else "err"
+            return None if impl_out == want else "ctpk::read of a %dx%d format-%d texture with %d payload bytes: %s, binary32 size product says %s" % (w, h, fmt, L, impl_out, want)
         if not impl_out.startswith("ok B"):
             return "input inside the property's domain but the decoder answered %s (%s build)" % (impl_out[:40], profile)
         out = bytes.fromhex(impl_out[4:])
@@ -441,20 +465,28 @@ TB = ("Trusted: Coq 8.16.1 kernel (vm_compute, no native_compute), no axioms (Pr
       "ExtrOcamlBasic extraction + hand-written OCaml driver, the Rust harness and Python generators/oracles. ")
 
 MANIFEST = dict(
-    text="Proved (28 theorems in Properties/C19.v, all closed, none partial) about executable Gallina models of texture_decoder.rs, etc1.rs, pixel_encodings.rs, "
-         "texture_utils.rs and the CI8 path of tpl.rs: TILE_ORDER is the Morton order; for every listed raw format and EVERY width/height that is a "
-         "multiple of 8 (w*h < 2^32) pixel (X,Y) is decode_color of the element at its Z-order index, in both arithmetic modes; every channel of all "
+    text="Proved (40 theorems in Properties/C19.v, all closed, none partial) about executable Gallina models of texture_decoder.rs, etc1.rs, "
+         "pixel_encodings.rs, texture_utils.rs and the CI8 path of tpl.rs: TILE_ORDER is the Morton order; for every listed raw format and EVERY "
+         "width/height that is a multiple of 8 (w*h < 2^32) pixel (X,Y) is decode_color of the element at its Z-order index; every channel of all "
          "65536 values per format is within one quantisation step of the linear expansion (exact for 8/4/1-bit fields); the ETC1 block decoder equals a "
          "specification written from the published rules for every block the rules define, and ETC1/ETC1A4 images place block/texel as the 3DS layout "
          "says (all powers of two); RGB5A3 all values; CI8 palette images in 8x4 blocks for EVERY size >= 1 with crop; output size; bytes-per-pixel "
-         "table; Checked and Wrapping modes give identical outcomes for every payload. Model tied to /repo on every run by exhaustive / finite-product "
-         "correspondence in both build profiles through ctpk::read, Tpl::extract_textures, mila::decode, ColorFormat::decode/decode_indexed; "
-         "independent Python re-statement of the formats (gen/texref.py) as oracle on the implementation's output.",
-    note=TB + "Modelled, not verified: f64 ceil/log2 and the f32 size product (A-float: integer functions, confirmed by the correspondence over all 25 "
-              "sizes, odd sizes and 256x256), allocation success (A-alloc). The harness wraps payloads in minimal CTPK/TPL containers to reach the "
+         "table, with the binary32 size product of ctpk::read modelled (round24) and its exactness an explicit hypothesis (holds for w*h < 2^24). "
+         "Overflow checks: MODED models (Model/PixelM.v, Model/Etc1M.v) put every machine operation that can overflow its Rust type (u8/u16/u32/u64/"
+         "usize/i32 +,-,*, shifts incl. computed amounts, `as u8`, table and slice indexing, divisions) through the Machine monad with the mode and are "
+         "PROVED to return, in both modes, exactly the mode-free models' results for every byte payload and all u16 sizes (ETC: sides < 2^31) - no "
+         "operation overflows, so checked and unchecked builds agree. The moded models are what the check compares with /repo on every run, in both "
+         "modes and both build profiles, by exhaustive / finite-product correspondence through ctpk::read, Tpl::extract_textures, mila::decode, "
+         "ColorFormat::decode/decode_indexed; independent Python re-statement of the formats (gen/texref.py) as oracle on the implementation's output.",
+    note=TB + "Modelled, not verified: f64 ceil/log2 of the ETC tile count (A-float: integer function, confirmed by the correspondence over all 25 "
+              "sizes, odd sizes, d x 1 / 1 x d block consumption) and the binary32 size product (integer model round24, compared with ctpk::read at and "
+              "beyond w*h = 2^24 and against an independent IEEE emulation); allocation success (A-alloc). `as` casts, wrapping_add and Wrapping<u8> are "
+              "mode-free by Rust's semantics and modelled as truncations. The harness wraps payloads in minimal CTPK/TPL containers to reach the "
               "private decoders through the public API. ETC1 differential blocks whose base+delta leaves 0..31 are outside the ETC1 rules: compared "
-              "with the model only. Formats outside the property's list (RGB8, HILO8, LA4, L4, A4) are model-compared, no theorem. F15 (u8 overflow on "
-              "negative ETC1 deltas in checked builds) was repaired in /repo (dde5f7c); the pre-repair expression is kept in the model and proved to panic.",
-    technique="Coq proof (finite sweeps by vm_compute for tables and channels, scatter/gather lemma + div/mod arithmetic for the tile, ETC and 8x4 "
-              "block layouts, field decomposition of the 64-bit word for ETC1) + extracted-model differential check + independent oracle",
+              "with the model only. Formats outside the property's list (RGB8, HILO8, LA4, L4, A4) are model-compared (moded), no specification "
+              "theorem. F15 (u8 overflow on negative ETC1 deltas in checked builds) was repaired in /repo (dde5f7c); the pre-repair expression is kept "
+              "in the model and proved to panic.",
+    technique="Coq proof (finite sweeps by vm_compute for tables, channels and the scalar moded decoders, scatter/gather lemma + div/mod arithmetic for "
+              "the tile, ETC and 8x4 block layouts, field decomposition of the 64-bit word for ETC1, bound arithmetic for the moded loops) + "
+              "extracted-model differential check + independent oracle",
     ref="DESIGN.md section 7 (C19); notes/tex.md")
